@@ -12,7 +12,8 @@ ASSUMPTIONS = [
     "DLX pointer structure abstracted to the set of covered columns (DESIGN §3); tied by R_trace: "
     "returned selections equal the mirror's in order",
 ]
-RULE = ("random 0/1 matrices (empty/duplicate rows, empty columns, named columns, secondary subsets, "
+RULE = ("random 0/1 matrices (empty/duplicate rows, empty columns, named columns incl. permuted integer names, secondary "
+        "subsets, a dense family whose rows mix primary and secondary columns, "
         "find_all/max_solutions/max_iter settings); non-trivial = the mirror's search made >= 3 calls; "
         "distinct by canonical (matrix, options)")
 
@@ -47,12 +48,19 @@ def gen_case(rng, big: bool):
         for r in mat:
             r[c] = 0
     names = None
-    if rng.random() < 0.4:
-        style = rng.choice(["str", "shift", "mixed"])
+    if rng.random() < 0.45:
+        style = rng.choice(["str", "shift", "mixed", "perm", "perm", "onebased", "reversed"])
         if style == "str":
             names = [f"c{i}" for i in range(nc)]
         elif style == "shift":
             names = [i + 10 for i in range(nc)]
+        elif style == "perm":  # integer names that collide with OTHER columns' positions
+            names = list(range(nc))
+            rng.shuffle(names)
+        elif style == "onebased":
+            names = [i + 1 for i in range(nc)]
+        elif style == "reversed":
+            names = list(range(nc - 1, -1, -1))
         else:
             names = [(f"k{i}" if i % 2 else i) for i in range(nc)]
     eff = names if names else list(range(nc))
@@ -69,6 +77,29 @@ def gen_case(rng, big: bool):
         opts["max_solutions"] = rng.choice([0, 1, 2, 3, 5])
     if rng.random() < 0.2:
         opts["max_iter"] = rng.choice([1, 2, 3, 5, 8, 13, 30])
+    return {"matrix": mat, "columns": names, "secondary": sec, "opts": opts}
+
+
+def gen_dense_secondary(rng, big: bool):
+    """Dense matrices whose rows mix primary and secondary columns (cover/uncover order matters only
+    there): 6-10 rows, 5-8 columns, density 0.45-0.65, 1-3 secondary columns, usually find_all."""
+    nr = rng.randint(6, 11 if big else 10)
+    nc = rng.randint(5, 9 if big else 8)
+    dens = rng.choice([0.45, 0.5, 0.55, 0.6, 0.65])
+    mat = [[1 if rng.random() < dens else 0 for _ in range(nc)] for _ in range(nr)]
+    for _ in range(rng.randint(0, 3)):  # a few sparse rows so that covers exist
+        r = rng.randrange(nr)
+        mat[r] = [1 if rng.random() < 0.25 else 0 for _ in range(nc)]
+    names = None
+    if rng.random() < 0.3:
+        names = list(range(nc))
+        rng.shuffle(names)
+    eff = names if names else list(range(nc))
+    k = rng.randint(1, 3)
+    sec = rng.sample(eff, min(k, nc))
+    opts = {"find_all": rng.random() < 0.85}
+    if rng.random() < 0.15:
+        opts["max_solutions"] = rng.choice([1, 2, 3])
     return {"matrix": mat, "columns": names, "secondary": sec, "opts": opts}
 
 
@@ -195,6 +226,7 @@ def run(ctx, budget):
     cases = list(edge_cases()) + [c["case"] for c in __import__("core").load_corpus("C07")]
     n = 1500 * budget
     cases += [gen_case(ctx.rng, big=(ctx.tier == "thorough" and i % 3 == 0)) for i in range(n)]
+    cases += [gen_dense_secondary(ctx.rng, big=(ctx.tier == "thorough")) for i in range(4 * n)]
     run_cases(ctx, cases)
 
 
